@@ -55,7 +55,9 @@ def classify(res, source_ok=True):
     if res.rc is None:
         return "timeout", None, "wall-clock watchdog"
     if res.exc is not None:
-        return "violation", "internal-exception:" + res.mech(), "%s: %s" % (res.exc[0], res.exc[1])
+        # the same innermost frame can fail for different reasons: an absent (None) value is a mechanism of its own
+        why = ":none-value" if res.exc[0] == "TypeError" and "NoneType" in str(res.exc[1]) else ""
+        return "violation", "internal-exception:" + res.mech() + why, "%s: %s" % (res.exc[0], res.exc[1])
     text = (res.stdout or "") + (res.stderr or "")
     if res.rc == 0:
         if not (res.out_path and os.path.exists(res.out_path)):
